@@ -243,10 +243,9 @@ Proof.
   { intros i Hi. cbn [tn ti_with_wait ti_with_slots ti_slots]. unfold initial_slots. now apply nth_error_repeat_none. }
   assert (Hwit : forall i x, (i < n1 k)%nat -> key_of_slot k i = Some x -> In (mkIReq (Some k) i x false false) news).
   { intros i x Hi Hx. unfold ImplVal1.key_of_slot in Hx. apply Nat.ltb_lt in Hi. rewrite Hi in Hx. now apply (req_witness rules ord Hord). }
-  destruct HT as [T1 T2 T3 T4 T5 T6 T7].
+  destruct HT as [T2 T3 T4 T5 T6 T7].
   split; [|split].
   - constructor.
-    + congruence.
     + congruence.
     + intros k' Hc. rewrite Hst. now apply T3, Hcu.
     + intros y Ho. destruct (O2 y Ho) as [Hold|Hn].
@@ -424,7 +423,7 @@ Lemma BInv_routed root su s' t rq rest : BInv root None su -> sreq_scanning su -
 Proof.
   intros (HT & HC & HS) Hss Hq Hq' Et Htip Hip Hreq RI Hft Hts Hu He HA.
   set (inp := iq_input rq) in *. set (dn := mkDep inp (iq_order rq) (iq_single rq)) in *.
-  destruct HT as [T1 T2 T3 T4 T5 T6 T7].
+  destruct HT as [T2 T3 T4 T5 T6 T7].
   assert (Hrq : Oreq2 su rq) by (left; left; rewrite Hq; now left).
   destruct (T4 rq Hrq) as [Hwf Hsg].
   assert (HRo : forall k, k <> t -> res_of s' k = res_of su k /\ kind_of s' k = kind_of su k).
@@ -478,7 +477,6 @@ Proof.
     - destruct HA as [(_ & _ & Hf)|(Hf & _)]; rewrite Hf in H; [destruct H as [H|H]; [subst y; exact Hrq|]|]; right; right; exact H. }
   split; [|split].
   - constructor.
-    + congruence.
     + congruence.
     + intros k Hc. rewrite Hst. now apply T3, Hcu.
     + intros y Ho. destruct (T4 y (O2 y Ho)) as [Hw Hs']. split; auto. apply (rq_wf_sub rules env F rank su s'); auto.
